@@ -167,8 +167,29 @@ def session(job):
                 lines += adv
                 closed = code != -1
             else:
-                kind = rnd.choice(["crypto", "challenge", "ncid"])
-                if kind == "crypto":
+                kind = rnd.choice(["crypto", "challenge", "ncid", "ack", "ack"])
+                if kind == "ack":
+                    # acknowledge what X sent, except (usually) the packets that carried its limit updates: X must
+                    # treat those as lost and advertise the limits again, while it keeps honouring them
+                    mine = [e for e in s.log if e["k"] == "pkt" and e["ep"] == X and e.get("ok") and e.get("space") == "a"]
+                    skip_limits = rnd.random() < 0.8
+                    pns = sorted({e["pn"] for e in mine
+                                  if not (skip_limits and any(f["t"].startswith("max_") for f in e.get("frames", [])))})
+                    if not pns:
+                        continue
+                    runs = []
+                    for pn in pns:
+                        if runs and pn == runs[-1][1] + 1:
+                            runs[-1][1] = pn
+                        else:
+                            runs.append([pn, pn])
+                    runs.reverse()
+                    ranges, prev_lo = [], runs[0][0]
+                    for lo, hi_ in runs[1:]:
+                        ranges.append((prev_lo - hi_ - 2, hi_ - lo))
+                        prev_lo = lo
+                    payload = H.f_ack(runs[0][1], 0, runs[0][1] - runs[0][0], ranges[:20])
+                elif kind == "crypto":
                     # never-completed handshake data: offset 0 is never sent
                     off = rnd.choice([1, 1000, 100000, 400000, 524288 - 1200, 524288 - 100, 524289, 1 << 20])
                     payload = H.f_crypto(off, bytes(rnd.choice([1, 100, 1100])))
